@@ -55,6 +55,16 @@ func (d *intDecoder) parseInt(b []byte) (int64, error) {
 	if maxDigit > pow10i64Len {
 		return 0, fmt.Errorf("invalid length of number")
 	}
+	if maxDigit == pow10i64Len {
+		// only a literal with the maximum number of digits can exceed the int64 range
+		limit := "9223372036854775807"
+		if isNegative {
+			limit = "9223372036854775808"
+		}
+		if string(b) > limit {
+			return 0, fmt.Errorf("value out of range")
+		}
+	}
 	sum := int64(0)
 	for i := 0; i < maxDigit; i++ {
 		c := int64(b[i]) - 48
